@@ -15,6 +15,15 @@ Variant `b`: the defect should be in **shared helper or table code away from the
 helpers, size tables, cost helpers, character classification, iterators, conversions), so that it shows only for
 a specific class of values.
 '''
+VARIANTS['6'] = '''Variant `a`: an **interaction** defect: it needs two features at once that are each fine alone - e.g. a prefix codeword
+(FNC1, Macro, ECI) together with a capacity boundary or a restricted mode set; a symbol list built in an unusual way
+together with a specific size; a builder option order together with a specific input class; Base256 together with
+another mode around the one-/two-byte length form; a rectangular or DMRE symbol together with a multi-region layout.
+Variant `b`: a defect in **rarely executed fallback or error-handling code** (early refusal checks, capacity limits,
+fallbacks for empty or single-element lists, branches for inputs that almost do not fit, clean-up after a failed
+attempt, retry paths) that turns a correct refusal into a wrong success, a wrong success into a refusal, or picks a
+wrong alternative.
+'''
 VARIANTS['5'] = '''Variant `a`: a **size- or magnitude-dependent** defect: it shows only for the largest symbols or longest inputs, for
 counts or positions beyond 255 / 65535 / a table length, at the boundary between the one- and two-byte form of
 some field, for codeword positions where a position-dependent formula (randomisation, interleaving, wrap-around)
